@@ -131,7 +131,9 @@ func checkPots(o *Out, es []entry, pots []*pot.Pot) {
 
 // ---- C02 monitor: net changes against the rules of the showdown ----
 
-func checkSettlement(o *Out, es []entry, changed map[int]int64) { checkSettlementAs(o, "", es, changed) }
+func checkSettlement(o *Out, es []entry, changed map[int]int64) {
+	checkSettlementAs(o, "", es, changed)
+}
 
 // checkSettlementAs: pfx is put in front of the monitor names (which ranking the entries carry)
 func checkSettlementAs(o *Out, pfx string, es []entry, changed map[int]int64) {
